@@ -436,6 +436,11 @@ func (im *impl) exec(f []string) (res string) {
 			return im.art.VerifSeekFirst(dec(f[1]))
 		}
 		return "seekl"
+	case "rangel":
+		if im.art != nil {
+			return im.art.VerifRange(dec(f[2]), dec(f[3]), f[1] == "1")
+		}
+		return "rangel"
 	case "seq":
 		if im.art != nil {
 			return fmt.Sprintf("ws:%d:%d", im.art.WriteSeqNo, im.art.SnapshotSeqNo)
@@ -698,7 +703,7 @@ func (rn *runner) step(f []string, staleProbe bool) string {
 	rr := rn.r.exec(f)
 	fmt.Fprintf(out, "O\t%s\t=>\t%s\n", strings.Join(f, "\t"), ra)
 	heartbeat(rn.id, rn.idx, strings.Join(f, "\t"), true)
-	if f[0] == "seekl" {
+	if f[0] == "seekl" || f[0] == "rangel" {
 		// ART only: the raw seek of the radix tree iterator
 	} else if f[0] == "bnext" && ra == "kv:|x" {
 		// ART declared the snapshot stale (SnapshotSeqNo moved); the RBT snapshot has no such check: not compared
@@ -941,10 +946,12 @@ func (g *gen) observers(touched []byte, final bool) [][]string {
 	}
 	if g.cls != "batch" || final {
 		// the raw seek of the radix tree iterator against L2's seek_rank
-		for i := 0; i < 2; i++ {
-			if b := g.bound(); b != "-" && b != "_" {
-				r = append(r, []string{"seekl", b})
-			}
+		if b := g.bound(); b != "-" && b != "_" {
+			r = append(r, []string{"seekl", b})
+		}
+		// Iterator.init's end-bound handling on the raw leaves (with or without value), both directions
+		if g.rng.Intn(2) == 0 {
+			r = append(r, []string{"rangel", strconv.Itoa(g.rng.Intn(2)), g.bound(), g.bound()})
 		}
 	}
 	// a batched snapshot iterator that lives across the following writes
@@ -1426,8 +1433,8 @@ func main() {
 			cls       string
 			n, nops   int
 		}{
-			{"small", 1000, 60}, {"prefix", 650, 60}, {"fan", 220, 40}, {"bigval", 260, 40}, {"limits", 300, 50},
-			{"cp", 500, 50}, {"f02", 200, 30}, {"batch", 24, 6},
+			{"small", 900, 60}, {"prefix", 600, 60}, {"fan", 220, 40}, {"bigval", 260, 40}, {"limits", 300, 50},
+			{"cp", 450, 50}, {"f02", 200, 30}, {"batch", 24, 6},
 		}
 		for _, p := range plan {
 			for i := 0; i < p.n*scale; i++ {
